@@ -94,6 +94,7 @@ class Case:
         self.events = [[] for _ in wfs]      # per waveform: ('c', values) | ('x',)
         self.oplog = []
         self.ok = True
+        self.extra = {}
 
     def run(self, ops):
         try:
@@ -146,6 +147,7 @@ class Case:
                  gated=[f.get('gate') is not None for f in self.wfs],
                  gate=next((self.wid[id(f['gate'])] - 1 for f in self.wfs if f.get('gate') is not None), None),
                  ops=self.oplog[:200])
+        r.update(self.extra)
         r.update(extra)
         return r
 
@@ -158,8 +160,6 @@ def check_case(res, c, decq, modelq, short):
         wf, entries = f['wf'], f['entries']
         gated = f.get('gate') is not None
         dd = wf.getDict()
-        wd = wf.get_wavedrom(short)
-        sig = wd['signal']
         ncyc = None
         # --- O1: one sample per cycle, equal to the pre-edge value, aliases and duplicates share
         for j, x in enumerate(entries):
@@ -178,6 +178,13 @@ def check_case(res, c, decq, modelq, short):
             res.fail('getDict() has a different number of keys than distinct watched wires',
                      c.replay(dict(oracle='O1-keys', waveform=i, keys=len(dd))))
             return
+        try:
+            wd = wf.get_wavedrom(short)
+        except Exception as e:
+            res.fail('get_wavedrom() raised on a recorder whose watch list was accepted by the constructor',
+                     c.replay(dict(oracle='O2-raise', waveform=i, err=repr(e)[:120])))
+            return
+        sig = wd['signal']
         # --- O3: span
         ok_shape = (len(sig) == len(entries) + 1 and wd['head']['text'] == wf.name and wd['head']['tock'] == 0)
         if not ok_shape:
@@ -301,19 +308,35 @@ def _check_answers(res, decq, modelq, out):
 
 
 # ------------------------------------------------------------------------------------------------ wf-direct
+ATOM_WIRE = {'w': 'w', 'pi': 'w', 'ba': 'w', 'o': 'o', 'po': 'o', 'br': 'o', 'q': 'q', 'pq': 'q', 'pq2': 'q'}
+
+
 def build_direct(widths, watch, gate=None):
-    """inputs i0.. of the given widths, each feeding Buf b<k> -> wire o<k>;  watch: list of ('w',k) input wire,
-    ('o',k) output wire, ('pi',k) Buf in-port (alias of input k), ('po',k) Buf out-port (alias of o<k>)"""
+    """inputs i<k> of the given widths; channel k is a SUB-BLOCK blk<k> (ports a, r) with an internal wire that is
+    called `q` in EVERY block (distinct wires, same short name), Buf b1: i<k> -> q, Buf b2: q -> o<k>.
+    watch atoms: ('w',k) input wire | ('o',k) output wire | ('q',k) the block's internal wire q |
+      ('pi',k) b1 in-port, ('ba',k) block in-port (aliases of i<k>) | ('po',k) b2 out-port, ('br',k) block out-port (aliases of o<k>) |
+      ('pq',k) b1 out-port, ('pq2',k) b2 in-port (aliases of blk<k>.q)"""
     import py4hw
     import py4hw.logic.bitwise as B
     from py4hw.logic.simulation import Waveform
     s = py4hw.HWSystem()
     ins = [s.wire(f'i{k}', w) for k, w in enumerate(widths)]
     outs = [s.wire(f'o{k}', w) for k, w in enumerate(widths)]
-    bufs = [B.Buf(s, f'b{k}', ins[k], outs[k]) for k in range(len(widths))]
+    blks, qs, b1, b2 = [], [], [], []
+    for k, w in enumerate(widths):
+        blk = py4hw.Logic(s, f'blk{k}')
+        blk.addIn('a', ins[k])
+        blk.addOut('r', outs[k])
+        q = blk.wire('q', w)
+        b1.append(B.Buf(blk, 'b1', ins[k], q))
+        b2.append(B.Buf(blk, 'b2', q, outs[k]))
+        blks.append(blk)
+        qs.append(q)
 
     def obj(t, k):
-        return {'w': ins[k], 'o': outs[k], 'pi': bufs[k].inPorts[0], 'po': bufs[k].outPorts[0]}[t]
+        return {'w': ins[k], 'o': outs[k], 'q': qs[k], 'pi': b1[k].inPorts[0], 'po': b2[k].outPorts[0],
+                'pq': b1[k].outPorts[0], 'pq2': b2[k].inPorts[0], 'ba': blks[k].inPorts[0], 'br': blks[k].outPorts[0]}[t]
     entries = [obj(t, k) for t, k in watch]
     parent, gw = s, None
     if gate is not None:                 # Waveform inside a clock domain gated by input wire `gate`
@@ -321,13 +344,16 @@ def build_direct(widths, watch, gate=None):
         parent = py4hw.Logic(s, 'gated')
         parent.clockDriver = py4hw.ClockDriver('gclk', base=s.clockDriver, enable=gw)
     wf = Waveform(parent, 'wf', entries)
-    return s, ins, ins + outs, dict(wf=wf, entries=entries, gate=gw)
+    return s, ins, ins + outs + qs, dict(wf=wf, entries=entries, gate=gw)
 
 
 def direct_case(res, label, widths, watch, seqs, clear_at=(), chunk=1, decq=None, modelq=None, short=False, gate=None):
     """seqs: list of value tuples (one per input wire) applied before each cycle"""
     s, ins, wires, f = build_direct(widths, watch, gate)
     c = Case(res, 'wf-direct', s, wires, [f], label)
+    c.extra = dict(nw=len(widths), layout='inputs | outputs | per-block internal wires all named q')
+    if len({wire_of(x).name for x in f['entries']}) < len({id(wire_of(x)) for x in f['entries']}):
+        res.hist('watch_same_name_distinct_wires', 'direct')
     ops = []
     for t, vals in enumerate(seqs):
         if t in clear_at:
@@ -368,7 +394,7 @@ def stream_direct(res, tier, rng):
                 direct_case(res, f'ex-w{w}', [w], [('w', 0)], [(v,) for v in seq], decq=decq, modelq=modelq, short=(n % 2 == 1))
         flush_queues(res, decq, modelq)
     # (b) exhaustive watch-list shapes over two wires (1 bit + 2 bits): wires, in/out ports, duplicates, lengths 1..3
-    atoms = [('w', 0), ('w', 1), ('pi', 0), ('pi', 1), ('o', 0), ('po', 1)]
+    atoms = [('w', 0), ('w', 1), ('pi', 0), ('o', 0), ('po', 1), ('q', 0), ('q', 1), ('pq', 1), ('pq2', 0)]
     seqs = [(1, 2), (1, 2), (0, 2), (0, 3), (1, 0)]
     for n in (1, 2, 3) if quick else (1, 2, 3, 4):
         for watch in itertools.product(atoms, repeat=n):
@@ -393,7 +419,8 @@ def stream_direct(res, tier, rng):
         nw = r.randint(1, 3)
         widths = [r.choice([1, 1, 2, 3, 4, 5, 7, 8, 9, 12, 16, 17, 31, 32, 33, 63, 64, 65, 100]) if r.chance(3, 4) else r.randint(1, 64)
                   for _ in range(nw)]
-        watch = [(r.choice(['w', 'w', 'o', 'pi', 'po']), r.randint(0, nw - 1)) for _ in range(r.randint(1, 6))]
+        watch = [(r.choice(['w', 'w', 'o', 'pi', 'po', 'q', 'q', 'pq', 'pq2', 'ba', 'br']), r.randint(0, nw - 1))
+                 for _ in range(r.randint(1, 6))]
         L = r.randint(0, 40 if quick else 120)
         seqs, cur = [], [0] * nw
         for t in range(L):
@@ -416,6 +443,8 @@ def stream_direct(res, tier, rng):
 # ------------------------------------------------------------------------------------------------ wf-designs / wf-net
 def stream_designs(res, tier, rng):
     import py4hw
+    import py4hw.logic.storage as S_
+    import py4hw.logic.bitwise as B_
     from py4hw.logic.simulation import Waveform
     quick = tier == 'quick'
     n_designs = 700 if quick else 16000
@@ -433,10 +462,30 @@ def stream_designs(res, tier, rng):
         ports = []
         for lf in leaves.values():
             ports += [p for p in lf.inPorts + lf.outPorts if p.wire is not None]
+        # sibling instances of one sub-block: internal wire `q`, leaves `reg`/`buf` and ports a/r are named alike in all
+        stage_q = []
+        try:
+            for k in range(r.choice([0, 1, 2, 2, 3])):
+                src = r.choice(cands)
+                blk = py4hw.Logic(sysobj, f'stage{k}')
+                dst = sysobj.wire(f'stage{k}_r', r.choice([src.getWidth(), r.randint(1, 8)]))
+                blk.addIn('a', src)
+                blk.addOut('r', dst)
+                q = blk.wire('q', r.choice([src.getWidth(), r.randint(1, 8)]))
+                rg = S_.Reg(blk, 'reg', src, q)
+                bf = B_.Buf(blk, 'buf', q, dst)
+                stage_q.append(q)
+                cands += [q, dst]
+                ports += rg.inPorts + rg.outPorts + bf.inPorts + bf.outPorts + blk.inPorts + blk.outPorts
+        except Exception as e:
+            res.hist('build_errors', str(e)[:50])
+            continue
         wfs = []
         try:
             for k in range(r.choice([1, 1, 2])):
                 entries = []
+                if len(stage_q) >= 2 and r.chance(1, 2):
+                    entries += r.shuffle(stage_q)[:2]           # two DIFFERENT wires that are both called q
                 for _ in range(r.randint(1, 7)):
                     t = r.randint(0, 9)
                     if t < 4 or not ports:
@@ -458,11 +507,14 @@ def stream_designs(res, tier, rng):
             continue
         all_w = D.all_wires(sysobj)
         try:
-            c = Case(res, 'wf-designs', sysobj, all_w, wfs, dict(design=i, plan=G.plan_summary(plan)))
+            c = Case(res, 'wf-designs', sysobj, all_w, wfs, dict(design=i, plan=G.plan_summary(plan), stages=len(stage_q)))
         except Exception as e:
             res.hist('build_errors', str(e)[:50])
             continue
         built += 1
+        for f in wfs:
+            if len({wire_of(x).name for x in f['entries']}) < len({id(wire_of(x)) for x in f['entries']}):
+                res.hist('watch_same_name_distinct_wires', 'designs')
         # structural facts the Net-level theorem assumes about the scheduler
         for f in wfs:
             occ = sum(ds.clockables.count(f['wf']) for ds in c.sim.clockDrivers.values())
@@ -552,16 +604,17 @@ def static_facts(res):
 def replay_direct(res, r, label, decq, modelq):
     """re-executes a wf-direct replay dict (as written by Case.replay): widths = inputs then Buf outputs; watch tokens
     w<i>/p<i> in that numbering; ops literally"""
-    nw = len(r['widths']) // 2
+    nw = r.get('nw', len(r['widths']) // 2)
     widths = r['widths'][:nw]
 
     def atom(tok):
         k = int(tok[1:]) - 1
-        return (('w' if k < nw else 'o') if tok[0] == 'w' else ('pi' if k < nw else 'po'), k % nw)
+        return (('w', 'o', 'q')[k // nw] if tok[0] == 'w' else ('pi', 'po', 'pq')[k // nw], k % nw)
     watch = [atom(t) for t in r['watch'][0]]
     gate = r.get('gate')
     s, ins, wires, f = build_direct(widths, watch, gate)
     c = Case(res, 'wf-direct', s, wires, [f], label)
+    c.extra = dict(nw=nw)
     ops = []
     for o in r['ops']:
         if o[0] == 'poke':
